@@ -262,6 +262,44 @@ PROPS["C13"] = dict(
     assumptions=[],
 )
 
+PROPS["C09"] = dict(
+    level_text="-exec/-execdir ... ; is specified on top of the reference walk: one invocation per entry that passes the test in front, argv = the template "
+               "with every {} in every argument replaced by the path (./basename in the parent directory for -execdir), truth = exit status 0, find's "
+               "status unaffected. TLC enumerates templates of up to two arguments over {}, x{}y, {}{}, literals, empty x exit-status scripts x "
+               "-exec/-execdir x three tests x a command that cannot be run, on names with blanks, quotes, '{}' and a leading dash, checks the "
+               "property's sentences and prints argv/cwd/truth per invocation; replayed on the real find binary with a recorder as the command "
+               "(argv and cwd logged byte for byte, exit status scripted per invocation); random trees with hostile names validated by TLC.",
+    level_note="Trusted: TLC; the recorder (vrec), the labelled -printf pair that shows the action's truth value. -execdir is judged for -P and "
+               "starting points without trailing slash that are not '.' / '..'.",
+    mc=[dict(module="mc/MC_Exec.tla", cfg=dict(quick="mc/MC_Exec_quick.cfg", thorough="mc/MC_Exec_thorough.cfg"), workers=8)],
+    record=dict(quick=250, thorough=5000),
+    selftest=dict(quick=30, thorough=100),
+    trace=dict(module="trace/T_Exec.tla", cfg="trace/T_Exec.cfg"),
+    trace_chunk=300,
+    rule="MC: 43 templates x status scripts up to MAXSCRIPT over {0,1,7} x {-exec,-execdir} x 4 tests (+ unrunnable command) on a 7-entry tree; "
+         "trace: random trees of 2-15 entries over 16 hostile names (newline, quotes, $(id), ';', '+', '{} {}'), templates of 0-3 arguments, random scripts.",
+    exhaustive_note="bounded-exhaustive",
+    assumptions=[],
+)
+PROPS["C08"] = dict(
+    level_text="-exec/-execdir ... {} + leaves the cutting into invocations to find, so the specification is a predicate on the recorded invocations: each "
+               "starts with the fixed arguments; the appended paths concatenate to the reached entries in visit order (nothing lost, duplicated or "
+               "reordered; also when -quit ends the walk); -execdir invocations hold entries of one directory only, as ./basename, run in that "
+               "directory; find's status is non-zero iff an invocation failed. TLC validates recorded runs of the real binary: random trees with "
+               "hostile names, scripted failures, -quit at a random entry, and bulk runs (hundreds to thousands of 150-200 byte names under a "
+               "512 KiB - 1 MiB stack limit) that force several invocations - an invocation the kernel rejected would show up as lost paths.",
+    level_note="Trusted: TLC; the recorder. The batch boundaries are deliberately unconstrained. Only recorded runs (implementation -> spec); there is "
+               "nothing for TLC to enumerate beyond what C09's model already covers.",
+    record=dict(quick=250, thorough=4000),
+    selftest=dict(quick=30, thorough=100),
+    trace=dict(module="trace/T_Exec.tla", cfg="trace/T_Exec.cfg"),
+    trace_chunk=60,
+    rule="trace: random trees (2-15 entries, hostile names) x -exec/-execdir x 0-2 fixed arguments x tests x failure scripts x optional -quit; "
+         "every ninth run a bulk tree under RLIMIT_STACK 512 KiB..1 MiB.",
+    exhaustive_note="",
+    assumptions=[],
+)
+
 _WALK_NOTE = ("Trusted: TLC; the harness's materialisation of tree values (mkdir/symlink) and the in-process call of find_main with captured "
               "output. Unreadable directories cannot be produced as root in-process and are exercised by C11's fixture only. Link targets are "
               "non-links or dangling (no link-to-link chains).")
